@@ -776,3 +776,10 @@ Example clauses_example :
     leaf_at b' ["spec"; "keep"] = Some (JStr "v") /\            (* untouched *)
     untouchedb ex_patch ["spec"; "keep"] = true.
 Proof. eexists. split; [reflexivity|]. repeat split. Qed.
+
+Example write_example :
+  let ws := [(["spec"; "x"], JNum 1%Z); (["spec"], JStr "scalar"); (["spec"; "y"], JNum 2%Z)] in
+  (exists c, ensure (content_of ws) ["metadata"; "labels"; "a/b"] (JStr "v") = Ok c) /\
+  resolve (content_of (ws ++ [(["metadata"; "labels"; "a/b"], JStr "v")])) ["metadata"; "labels"; "a/b"] = Some (JStr "v") /\
+  content_of ws = JObj [("spec", JStr "scalar")].     (* the view write over a scalar raised and was dropped *)
+Proof. cbv zeta. split; [eexists; reflexivity|]. split; reflexivity. Qed.
